@@ -259,7 +259,9 @@ def generate(rng, tier):
                "custom": False, "always": False}
     # the headline values under the default configuration
     heads = [0.995, 99.995, 999.995, 999999.995, -0.995, 0.994, 0.996, 1234567.891, -1234567.891, 0.004, -0.004, 0.0, -0.0, 1e21,
-             1e15, 123.0, 123.1, 123.01, 1234.01, 123456.123456789, -123456.1]
+             1e15, 123.0, 123.1, 123.01, 1234.01, 123456.123456789, -123456.1,
+             # decimal literals whose binary64 value lies just BELOW a x.xx5 boundary: one rounding, of the exact value
+             1.115, 2.675, 1.005, 8.345, 0.145, 1002.675, -1.115, 0.285, 1.255, 4.015, 10.075, 1.045]
     for i in range(0, len(heads), per):
         items = [item(rng, rng.choice(["number", "percent"]) if j % 2 else "number", x, default)
                  for j, x in enumerate(heads[i:i + per])]
@@ -288,6 +290,19 @@ def generate(rng, tier):
                 it["cur"] = cur
                 items.append(it)
             cases.append(make_case(rng, cfg, items, "money-grid"))
+    # amounts below half a minor unit, in currencies of 3, 2 and 0 digits, under both rounding settings: the digit count
+    # of the CURRENCY decides what is printed
+    for cur in ("kwd", "bhd", "lyd", "usd", "jpy"):
+        if cur not in CURRENCIES:
+            continue
+        for rm, rnd in ((False, True), (False, False), (True, True)):
+            cfg = dict(default, money=(rm, rnd), always=True)
+            items = []
+            for x in (0.004, 0.0004, 0.003, 0.0049, 0.005, 0.0051):
+                it = item(rng, "money", x, cfg)
+                it["cur"] = cur
+                items.append(it)
+            cases.append(make_case(rng, cfg, items, "money-small"))
     # mixed
     while len(cases) < ncases:
         dsep, tsep = rng.choice(SEPARATORS)
